@@ -971,6 +971,13 @@ ws_read_finish(nni_ws *ws)
 static void
 ws_read_frame_cb(nni_ws *ws, ws_frame *frame)
 {
+	// Control frames must not be fragmented (RFC 6455 5.5).
+	if ((frame->op >= WS_CLOSE) && (frame->op <= WS_PONG) &&
+	    (!frame->final)) {
+		ws_close(ws, WS_CLOSE_PROTOCOL_ERR);
+		return;
+	}
+
 	switch (frame->op) {
 	case WS_CONT:
 		if (!ws->inmsg) {
